@@ -63,6 +63,14 @@ def gen_cases(tier, seed):
         for s in subsets3:
             if len(s) == 2 and (tier == 'thorough' or s[0][1] == s[1][1]) or len(s) == 1:
                 add(pattern, 3, 0.0, wa, step, s, rerun=True)
+    # measurement tables whose rows are not in chronological order (same-sensor pairs and the clusters)
+    for pattern, step, wa in _cfgs(tier):
+        if tier == 'quick' and not (wa and step in ('equal', 'huge')):
+            continue
+        for s in subsets3:
+            if len(s) == 2 and s[0][1] == s[1][1]:
+                add(pattern, 3, 0.0, wa, step, s)
+                cases[-1]['unsorted'] = True
     # near-coincident epochs (0.24 microseconds apart), same and different sensors
     twins = schedx.twin_family(3)
     for pattern, step, wa in _cfgs(tier):
